@@ -648,6 +648,7 @@ def run_unit(unit, tier='quick'):
                 r2['secs'] += r['secs']
                 r = r2
             o['secs'] += r['secs']; res['solver_s'] += r['secs']
+            o['max_secs'] = max(o.get('max_secs', 0.0), r['secs'])
             if r['verdict'] == 'proved':
                 o['proved'] += 1; o['by'][r['by']] = o['by'].get(r['by'], 0) + 1
                 if len(res['samples']) < 3 and kind != 'safety':
